@@ -486,11 +486,38 @@ def checkC03 (h : History) (obs : List RunObs) : Option String :=
       (bad1 <|> bad2 <|> bad3 <|> bad4).map (fun s => s!"C03 run {k}: {s}")
     | _, _ => none
 
+/-! ### C18 — the value apply-time mutation writes is the source's value -/
+
+/-- after every successful apply request for an object with an apply-time-mutation annotation (a single in-set source), the
+target field of the stored object holds the source field's value as the store has it at that moment (in the generated
+histories a source does not change between its last status report and the apply of its dependent) -/
+def checkC18 (h : History) (obs : List RunObs) : Option String :=
+  (List.range obs.length).findSome? fun k =>
+    match obs[k]?, h.runs[k]? with
+    | some o, some r =>
+      if r.destroy || r.opts.dry ≠ .none then none else
+      o.muts.findSome? fun m =>
+        if (m.verb = "create" || m.verb = "patch") && m.result = "ok" then
+          match r.objs.find? (fun x => x.id = m.id) with
+          | some mf =>
+            match mf.mutFrom with
+            | some src =>
+              if mf.mutExt then none else
+              match snapFind m.snap m.id, snapFind m.snap src with
+              | some tgt, some sl =>
+                if tgt.frm = some sl.rev then none
+                else some s!"C18 run {k}: {m.id.name} was applied with value {tgt.frm} but its source {src.name} holds {sl.rev}"
+              | _, _ => none
+            | none => none
+          | none => none
+        else none
+    | _, _ => none
+
 /-! ### dispatcher -/
 
 def checks : List (String × (History → List RunObs → Option String)) := [
   ("C01", checkC01), ("C02", checkC02), ("C03", checkC03), ("C04", checkC04), ("C05", checkC05),
-  ("C10", checkC10), ("C11", checkC11), ("C12", checkC12), ("C13", checkC13)]
+  ("C10", checkC10), ("C11", checkC11), ("C12", checkC12), ("C13", checkC13), ("C18", checkC18)]
 
 def checkHistory (prop : String) (h : History) (obs : List RunObs) : Bool × String :=
   let sel := if prop = "all" then checks else checks.filter (fun c => c.1 = prop)
